@@ -164,10 +164,12 @@ def chordSq : List Pt → List Rat
 /-! ## nearest-node remap (`cKDTree.query`, k = 1) -/
 
 /-- Smallest squared distance from `q` to the nodes. -/
-def minSqd (nodes : List (Int × Pt)) (q : Pt) : Option Rat :=
-  nodes.foldl (fun acc n => match acc with
+def minSqd : List (Int × Pt) → Pt → Option Rat
+  | [], _ => none
+  | n :: rest, q =>
+    match minSqd rest q with
     | none => some (sqd n.2 q)
-    | some m => if sqd n.2 q < m then some (sqd n.2 q) else some m) none
+    | some m => if sqd n.2 q < m then some (sqd n.2 q) else some m
 
 /-- Argmin of the squared distance (first in table order among exact ties). -/
 def nearest (nodes : List (Int × Pt)) (q : Pt) : Option Int :=
